@@ -18,7 +18,6 @@ import (
 	"cmp"
 	"log/slog"
 	"net/http"
-	"strconv"
 	"time"
 )
 
@@ -70,13 +69,10 @@ func calculateCurrentAge(
 	h http.Header,
 	date, requestTime, responseTime time.Time,
 ) *Age {
-	ageVal := 0
-	if ageStr := h.Get("Age"); ageStr != "" {
-		ageVal, _ = strconv.Atoi(ageStr)
-	}
+	ageVal, _ := RawDeltaSeconds(h.Get("Age")).Value()
 	apparentAge := max(responseTime.Sub(date), 0)
 	responseDelay := max(responseTime.Sub(requestTime), 0)
-	correctedAgeValue := time.Duration(ageVal)*time.Second + responseDelay
+	correctedAgeValue := ageVal + responseDelay
 	correctedInitialAge := max(apparentAge, correctedAgeValue)
 	residentTime := max(clock.Since(responseTime), 0)
 	return &Age{
